@@ -170,6 +170,37 @@ def replay(pid, path):
             print('VIOLATION property=%s replay=%s' % (pid, path))
             return 1
         return 0
+    if ops and ops[0].startswith('apk '):
+        # the Android base reader (C05): the containers are rebuilt and read again
+        a_ = dict(monitor_fail=[], evaluations=0)
+        os.makedirs(work, exist_ok=True)
+        android_base_stream(a_, random.Random(int(os.environ.get('VERIF_SEED', '1')) + 5), work)
+        shutil.rmtree(work, ignore_errors=True)
+        for m_ in a_['monitor_fail']:
+            print('MONITOR: ' + m_[2])
+        if a_['monitor_fail']:
+            print('VIOLATION property=%s replay=%s' % (pid, path))
+            return 1
+        print('%d containers read back exactly' % a_['evaluations'])
+        return 0
+    if ops and ops[0].startswith('jsonbody '):
+        # one response body as bytes: the model's reading against the library's (C06, text level)
+        os.makedirs(work, exist_ok=True)
+        _, nm, hexb = ops[0].split()
+        f1, f2 = os.path.join(work, 'm.ops'), os.path.join(work, 'i.txt')
+        open(f1, 'w').write(ops[0] + '\n')
+        open(f2, 'w').write('%s %s\n' % (nm, hexb))
+        mo = subprocess.run([DRIVER, f1], capture_output=True, text=True).stdout.strip()
+        io_ = subprocess.run([UVH, 'jsonbodies', f2], capture_output=True, text=True).stdout.strip()
+        shutil.rmtree(work, ignore_errors=True)
+        print('body : %r' % (b'' if hexb == 'e' else bytes.fromhex(hexb))[:300])
+        print('model: ' + mo)
+        print('impl : ' + io_)
+        if mo != io_:
+            print('DIVERGENCE')
+            print('VIOLATION property=%s replay=%s' % (pid, path))
+            return 1
+        return 0
     if sched_shape(ops) is not None:
         # one scheduled interleaving of real threads (C11, C17, C18, C12 stalls): model and implementation run the same
         # order under the lock-discipline observer; re-judged by the rules of the check it came from
@@ -573,6 +604,44 @@ def build_C06_http(ctx, tier, rnd):
     return hs
 
 
+def json_text_stream(a, tier, rnd, ctx, work, model_ok):
+    """C06, text level: response bodies as BYTES (renderings of generated trees with random white space / escape forms,
+    byte-level mutations of them, a table of edge cases) read by the model (JsonText.resp_of_body, driver `jsonbody`)
+    and by the library's own entry point (serde_json::from_slice::<PatchCheckResponse>, `uvh jsonbodies`)."""
+    import jsongen, jsontext
+    p2 = ctx.p['2']
+    bodies = list(jsontext.edge_cases(p2['hash'], url_of(2)))
+    n = 250 if tier == 'quick' else 6000
+    for i in range(n):
+        t, _ = jsongen.gen_resp(rnd, 2, p2['hash'], url_of(2), None)
+        b = jsontext.render(rnd, t)
+        bodies.append(('g%d' % i, b))
+        for j in range(3):
+            bodies.append(('g%d_m%d' % (i, j), jsontext.mutate(rnd, b)))
+    os.makedirs(work, exist_ok=True)
+    f1, f2 = os.path.join(work, 'jt_model.ops'), os.path.join(work, 'jt_impl.txt')
+    open(f1, 'w').write(''.join('jsonbody %s %s\n' % (nm, b.hex() or 'e') for nm, b in bodies))
+    open(f2, 'w').write(''.join('%s %s\n' % (nm, b.hex() or 'e') for nm, b in bodies))
+    im = subprocess.run([UVH, 'jsonbodies', f2], capture_output=True, text=True)
+    ii = dict(l[9:].split('=', 1) for l in im.stdout.splitlines() if l.startswith('jsonbody:'))
+    mm = {}
+    if model_ok:
+        mo = subprocess.run([DRIVER, f1], capture_output=True, text=True)
+        mm = dict(l[9:].split('=', 1) for l in mo.stdout.splitlines() if l.startswith('jsonbody:'))
+        if len(mm) != len(dict(bodies)):
+            a['extras'].append('json text: the model driver answered %d of %d bodies %s' % (len(mm), len(dict(bodies)), mo.stderr[-200:]))
+    if len(ii) != len(dict(bodies)):
+        a['extras'].append('json text: the library answered %d of %d bodies (rc=%d) %s' % (len(ii), len(dict(bodies)), im.returncode, im.stderr[-200:]))
+    acc = 0
+    for nm, b in bodies:
+        if ii.get(nm, 'err') != 'err':
+            acc += 1
+        if model_ok and nm in mm and nm in ii and mm[nm] != ii[nm]:
+            a['divergences'].append(('jsontext_' + nm, 0, 'model reads the body as: ' + mm[nm][:200], 'library reads it as: ' + ii[nm][:200], ['jsonbody %s %s' % (nm, b.hex() or 'e')], []))
+    a['evaluations'] += len(bodies)
+    a['dist'] = dict(a.get('dist', {}), json_text_bodies=len(bodies), json_text_accepted_by_the_library=acc)
+
+
 def run_C06(pid, tier, seed, model_ok=True):
     a = run_lifecycle(pid, tier, seed, build_C06, [monitors.mon_C05, monitors.mon_healthy], trig_update, C06_RULE, model_ok=model_ok)
     rnd = random.Random(seed)
@@ -626,10 +695,12 @@ def run_C06(pid, tier, seed, model_ok=True):
             a['extras'].append('json: the model driver did not answer for every generated tree')
         if hs:
             a['samples'].append({'history': hs[0][0], 'ops': hs[0][1][:12]})
+        json_text_stream(a, tier, rnd, ctx, work + 'jt', model_ok)
         return a
     finally:
         ctx.cleanup()
         shutil.rmtree(work, ignore_errors=True)
+        shutil.rmtree(work + 'jt', ignore_errors=True)
 
 
 def build_C07(ctx, tier, rnd):
@@ -1598,7 +1669,7 @@ def run_C13(pid, tier, seed, model_ok=True):
                'op check - err', al.ops['ck2'][0], al.ops['u2'][0], al.ops['rb12'][0], al.ops['upnone'][0]]
         # (a) structurally malformed storage: implementation only (the model's abstraction of unreadable
         # JSON is JGarbage; these inputs probe the JSON/YAML/fs glue the model abstracts away)
-        hs_impl = []
+        hs_impl, hs_pjtext = [], []
         nmal = 300 if tier == 'quick' else 6000
         for i, (which, data) in enumerate(json_mutants(rnd, nmal)):
             ctx.add_blob('mal%d' % i, data)
@@ -1606,7 +1677,37 @@ def run_C13(pid, tier, seed, model_ok=True):
             tail = rnd.sample(api, 5)
             if i < 14:      # the extreme-timestamp documents: make sure the queue is actually reported
                 tail = [al.ops['upnone'][0]] + tail
-            hs_impl.append(('mal%d' % i, [al.init] + pre + ['op dmg raw%s @mal%d' % (which, i)] + tail + ['op kill', al.init] + rnd.sample(api, 4)))
+            # patches_state.json: the model reads the bytes itself (JsonState.pj_of_file) - compared, not only exercised
+            (hs_pjtext if which == 'pj' else hs_impl).append(('mal%d' % i, [al.init] + pre + ['op dmg raw%s @mal%d' % (which, i)] + tail + ['op kill', al.init] + rnd.sample(api, 4)))
+        # the same file at the text level: a well-formed state spelled with white space, escapes, reordered and unknown members
+        # (lenient content under unknown keys), and byte-level mutants of it
+        import jsontext
+        mt = lambda k: ('obj', [('number', ('int', False, k)), ('size', ('int', False, 303)), ('hash', ('str', 'ab' * 32)), ('signature', ('null',))])
+        base_tree = ('obj', [('last_booted_patch', mt(1)), ('next_boot_patch', mt(2)), ('currently_booting_patch', ('null',)),
+                             ('known_bad_patches', ('arr', [('int', False, 3), ('int', False, 3), ('int', False, 7)]))])
+        pj_edges = [
+            b'{"known_bad_patches":[]}', b'{"known_bad_patches":[],"x":"\\ud800"}', b'{"known_bad_patches":[],"x":"\xff"}',
+            b'{"known_bad_patches":[],"\\ud800":1}', b'{"known_bad_patches":[3,3,3]}', b'[null,null,null,[]]', b'[null,null,null]',
+            b'[null,null,null,[],1]', b'{"known_bad_patches":[1,]}', b'{"known_bad_patches":[01]}', b'{"known_bad_patches":[-0]}',
+            b'{"known_bad_patches":[18446744073709551615]}', b'{"known_bad_patches":[18446744073709551616]}',
+            b'{"known_bad_patches":[],"next_boot_patch":{"number":2,"size":303,"hash":"' + b'ab' * 32 + b'"}}',
+            b'{"known_bad_patches":[],"next_boot_patch":[2,303,"' + b'ab' * 32 + b'",null]}',
+            b'{"known_bad_patches":[],"next_boot_patch":[2,303,"' + b'ab' * 32 + b'"]}',
+            b'{"known_bad_patches":[],"next_boot_patch":{"number":2,"size":303,"hash":"\\ud83d\\ude00","signature":"s","z":{"q":["\\udc00"]}}}',
+            b'{"known_bad_patches":[],"next_boot_patch":{"number":2,"size":303,"hash":"\xed\xa0\x80"}}',
+            b'\xef\xbb\xbf{"known_bad_patches":[]}', b'{"known_bad_patches":[]} x', b' \n{"known_bad_patches" : [ ] }\n\n', b'{"known_bad_patches":[],"known_bad_patches":[]}',
+            b'{"last_booted_patch":null}', b'null', b'', b'{', b'{"known_bad_patches":{}}', b'{"known_bad_patches":[],"last_booted_patch":2}',
+        ]
+        texts = list(pj_edges)
+        for _ in range(40 if tier == 'quick' else 1500):
+            b_ = jsontext.render(rnd, base_tree)
+            texts.append(b_)
+            texts.append(jsontext.mutate(rnd, b_))
+            texts.append(jsontext.mutate(rnd, jsontext.mutate(rnd, b_)))
+        for i, data in enumerate(texts):
+            ctx.add_blob('pjt%d' % i, data)
+            pre = al.seq(rnd.choice([PFX['good1pend2'], PFX['good1boot2'], PFX['boot1'], ()]))
+            hs_pjtext.append(('pjt%d' % i, [al.init] + pre + ['op dmg rawpj @pjt%d' % i] + rnd.sample(api, 4) + ['op kill', al.init] + rnd.sample(api, 3)))
         fsd = ['op dmg artisfile 2', 'op dmg artfileisdir 2', 'op dmg patchesisfile', 'op dmg pjisdir', 'op dmg artisfile 1', 'op dmg artfileisdir 1']
         for i, dmg in enumerate(fsd):
             for pk in ('good1pend2', 'good1boot2', 'empty'):
@@ -1648,6 +1749,7 @@ def run_C13(pid, tier, seed, model_ok=True):
         hs_both += gen.random_walks(al, labels, [1] * len(labels), 150 if tier == 'quick' else 5000, (10, 50), rnd, name='ord', conformant=False, stale=True)
         # calls before any init
         hs_both.append(('noinit', list(api) + [al.init] + list(api)))
+        hs_both += hs_pjtext
         header = ctx.header()
         model, impl, extras = run_both(header, hs_both, work, impl_only=not model_ok)
         _, impl2, extras2 = run_both(header, hs_impl, work + 'b', impl_only=True)
@@ -2170,6 +2272,51 @@ C05_RULE = ('byte-level mutants (flip/truncate/extend at zstd and at bidiff leve
             'non-trivial = distinct (state, update-with-offer)')
 
 
+def android_base_stream(a, rnd, work):
+    """C05, "the bundled base binary" on Android: library/src/android.rs (compiled for Android and for tests only; source-
+    included in the harness) reads libapp.so out of the APK.  Whatever the container does - stored or deflated entry, an
+    entry larger than one inflater read, a split APK for this architecture next to a base.apk - the bytes handed to
+    inflate as the base must be the bytes of the bundled library."""
+    import zipfile, platform
+    m = platform.machine()
+    libdir, split = {'x86_64': ('x86_64', 'x86_64'), 'aarch64': ('arm64-v8a', 'arm64_v8a')}.get(m, (None, None))
+    if libdir is None:
+        return
+    inner = 'lib/%s/libapp.so' % libdir
+    libs = {'small': bytes(rnd.randrange(256) for _ in range(700)),
+            'big_random': bytes(rnd.randrange(256) for _ in range(300000)),
+            'big_regular': (b'shorebird-libapp-' * 40000)[:500000],
+            'big_zero_tail': bytes(rnd.randrange(256) for _ in range(70000)) + bytes(200000),
+            'empty': b''}
+    n = 0
+    for ln, lib in libs.items():
+        for comp, cn in ((zipfile.ZIP_STORED, 'stored'), (zipfile.ZIP_DEFLATED, 'deflated')):
+            for layout in ('base', 'split'):
+                d = os.path.join(work, 'apk_%s_%s_%s' % (ln, cn, layout))
+                os.makedirs(d, exist_ok=True)
+                with zipfile.ZipFile(os.path.join(d, 'base.apk'), 'w') as z:
+                    z.writestr(zipfile.ZipInfo('AndroidManifest.xml'), b'<manifest/>')
+                    if layout == 'base':
+                        z.writestr(zipfile.ZipInfo(inner), lib, compress_type=comp)
+                if layout == 'split':
+                    with zipfile.ZipFile(os.path.join(d, 'split_config.%s.apk' % split), 'w') as z:
+                        z.writestr(zipfile.ZipInfo(inner), lib, compress_type=comp)
+                        z.writestr(zipfile.ZipInfo('lib/other/libapp.so'), b'not this one', compress_type=comp)
+                out = os.path.join(d, 'out.bin')
+                r = subprocess.run([UVH, 'baselib', d, out], capture_output=True, text=True)
+                n += 1
+                got = open(out, 'rb').read() if os.path.exists(out) else None
+                if 'baselib=ok' not in r.stdout or got != lib:
+                    why = 'not read (%s)' % (r.stdout.strip() or r.stderr.strip()[-200:]) if got is None else \
+                        '%d bytes, the first difference at offset %d' % (len(got), next((i for i in range(min(len(got), len(lib))) if got[i] != lib[i]), min(len(got), len(lib))))
+                    a['monitor_fail'].append(('apk_%s_%s_%s' % (ln, cn, layout), 0,
+                                              'C05: the base binary read from the APK (%s entry of %d bytes, %s layout) is not the bundled library: %s' % (cn, len(lib), layout, why),
+                                              ['apk %s %s %s %d' % (ln, cn, layout, len(lib))], []))
+                shutil.rmtree(d, ignore_errors=True)
+    a['evaluations'] += n
+    a['dist'] = dict(a.get('dist', {}), android_apk_base_reads=n)
+
+
 def run_C05(pid, tier, seed, model_ok=True):
     a = run_lifecycle(pid, tier, seed, build_C05, [monitors.mon_C05, monitors.mon_healthy], trig_update, C05_RULE, model_ok=model_ok)
     ctx = Ctx(seed=seed)
@@ -2199,6 +2346,7 @@ def run_C05(pid, tier, seed, model_ok=True):
                                                   header + ['faultspec mode=fail k=%d reads=1 target=%d kind=c05 scope=all art=%s bad=-' % (k, ti, ref_art)]))
         a['evaluations'] += nf
         a['dist'] = dict(a.get('dist', {}), update_x_failing_call_incl_download_files=nf)
+        android_base_stream(a, random.Random(seed + 5), work)
     finally:
         ctx.cleanup()
         shutil.rmtree(work, ignore_errors=True)
